@@ -124,7 +124,7 @@ pub proof fn lemma_key_decodes(b: Seq<u8>, pm: PieceMgr, w: HeapW, o: nat)
     requires heap_ok(b, pm, w), is_key(w, o)
     ensures key_rec_ok(b, o as int), rec_data(b, o as int) == kkey(w, o), key_voff(b, o as int) == kvoff(w, o), key_next(b, o as int) == knext(w, o),
         rec_size(b, o as int) == w.slots[o].size, o >= 192, o + w.slots[o].size <= b.len(),
-        kvoff(w, o) % 8 == 0, knext(w, o) % 8 == 0, kkey(w, o).len() <= u32::MAX, kvoff(w, o) <= u64::MAX, knext(w, o) <= u64::MAX,
+        kvoff(w, o) % 8 == 0, knext(w, o) % 8 == 0, kkey(w, o).len() <= u32::MAX, kvoff(w, o) <= u64::MAX, knext(w, o) <= u64::MAX, o % 8 == 0,
 {
     assert(slot_ok(b, o, w.slots[o]));
     lemma_slot_bounds(b, o, w.slots[o]);
